@@ -36,6 +36,7 @@ func runC13(c *Ctx) {
 	const r2 = "C13.R2 syncCancel state machine"
 	ruleCancelMachine(c, r2)
 	ruleCalleeGone(c, r2)
+	ruleProgressiveStickiness(c, r2) // a finished call is forgotten: a later CANCEL naming it has no effect
 	c.R.Floor(r2, 20)
 
 	const r3 = "C13.R3 timeout forwarding versus router timer"
